@@ -218,7 +218,12 @@ def build(d):
         nodes = []
         for i, p in enumerate(parents):
             if p < 0:
-                node = Tree(Text(labels[i]), expanded=bool(expanded[i]), **({"guide_style": guide} if guide else {}))
+                root_guide = guide if (guide and not guide.startswith("child:")) else None
+                node = Tree(Text(labels[i]), expanded=bool(expanded[i]),
+                            **({"guide_style": root_guide} if root_guide else {}))
+            elif i == 1 and guide and guide.startswith("child:"):
+                # per-node option: the first child (and, by inheritance, its subtree) gets its own guide style
+                node = nodes[p].add(Text(labels[i]), expanded=bool(expanded[i]), guide_style=guide[6:])
             else:
                 node = nodes[p].add(Text(labels[i]), expanded=bool(expanded[i]))
             nodes.append(node)
@@ -256,7 +261,7 @@ def cmin(d):
         return 1
     if k == "columns":
         o = d[2]
-        m = max(max(sw(part) for part in s.split("\n")) for s in d[1])
+        m = max([1] + [max(sw(part) for part in s.split("\n")) for s in d[1]])
         if o["width"]:
             _, r, _, l = unpack(o["padding"])
             m = max(m, o["width"]) + max(l, r)
@@ -804,6 +809,11 @@ def check_columns(case, res):
     lines, ended = out
     texts = [t for t, _ in lines]
     heads = [s.split("\n")[0] for s in labels]
+    if not labels:
+        res.sig(("columns", kind, "empty"), nontrivial=False)
+        if texts:
+            res.violate("columns/item-count", case, "no items, but the output is %r" % texts)
+        return
     pos = {}
     for i, h in enumerate(heads):
         found = []
@@ -841,21 +851,70 @@ def check_columns(case, res):
     if any(keys[i] >= keys[i + 1] for i in range(len(keys) - 1)):
         res.violate("columns/order/" + mode, case, "reading the grid %s does not give the input order: %r" % (mode, texts))
         return
+    # grid position of every item against an independent fill of a grid with the observed number of columns
+    n, K, r2l = len(labels), ncols, o["right_to_left"]
+    rank = {li: k for k, li in enumerate(rows)}
+    got = [(rank[pos[i][0]], col_of[i]) for i in range(n)]
+    if not o["column_first"]:
+        want = [(i // K, (K - 1 - i % K) if r2l else i % K) for i in range(n)]
+        bad = [i for i in range(n) if got[i] != want[i]]
+        if bad:
+            i = bad[0]
+            res.violate("columns/grid-position/" + mode, case,
+                        "item %r sits in (row %d, column %d) of a %d-column grid, a %s fill puts it in (row %d, column %d): %r"
+                        % (heads[i], got[i][0], got[i][1], K, mode, want[i][0], want[i][1], texts))
+            return
+    else:
+        # column-major fill: columns are used from the starting edge without gaps, each filled from the top,
+        # and no column is taller than the one filled before it
+        step = -1 if r2l else 1
+        heights, why = [], None
+        if got[0] != (0, K - 1 if r2l else 0):
+            why = "the first item is not at the top of the %s column" % ("right-most" if r2l else "left-most")
+        for i in range(n):
+            if why:
+                break
+            if i and got[i] == (got[i - 1][0] + 1, got[i - 1][1]):
+                heights[-1] += 1
+            elif i == 0 or got[i] == (0, got[i - 1][1] + step):
+                heights.append(1)
+            else:
+                why = "item %r is in (row %d, column %d) after (row %d, column %d)" % (
+                    heads[i], got[i][0], got[i][1], got[i - 1][0], got[i - 1][1])
+        if not why and any(a < b for a, b in zip(heights, heights[1:])):
+            why = "column heights %r grow in filling order" % heights
+        if why:
+            res.violate("columns/grid-position/" + mode, case, "%s: %r" % (why, texts))
+            return
+    if o["width"] and not o["expand"]:
+        # columns of the requested width: the first item sits in the outermost column of the grid
+        _, pr_, _, pl_ = unpack(o["padding"])
+        # (a grid measures the paddings of its first column on both sides, so allow both)
+        reach = o["width"] + pl_ + pr_
+        table_w = max(sw(t) for t in texts)
+        dist = (table_w - pos[0][2]) if r2l else pos[0][1]
+        if dist >= reach:
+            res.violate("columns/grid-edge/" + mode, case,
+                        "the first item is %d cells away from the %s edge of the %d-cell grid (column pitch %d): %r"
+                        % (dist, "right" if r2l else "left", table_w, reach, texts))
 
 
 # ------------------------------------------------------------------ Tree
 def _tree_reference(parents, expanded, labels, guides):
-    """-> (expected lines as (prefix, label line), visible node ids in pre-order)"""
+    """guides: one glyph tuple, or a list with the glyph tuple in effect at every node (the segment that links a
+    node to its children is drawn in the parent's guide style).
+    -> (expected lines as (prefix, label line), visible node ids in pre-order)"""
     n = len(parents)
     children = [[] for _ in range(n)]
     for i, p in enumerate(parents):
         if p >= 0:
             children[p].append(i)
-    SPACE, CONT, FORK, END = guides
+    per_node = guides if isinstance(guides, list) else [guides] * n
     out, order = [], []
 
     def walk(v, anc_prefix, depth, last):
         order.append(v)
+        SPACE, CONT, FORK, END = per_node[parents[v]] if parents[v] >= 0 else per_node[0]
         parts = labels[v].split("\n")
         for li, part in enumerate(parts):
             if depth == 0:
@@ -883,7 +942,15 @@ def check_tree(case, res):
     lines, ended = out
     texts = [t for t, _ in lines]
     gname = "ascii" if kind == "ascii" else "plain" if (kind == "legacy" or not guide) else guide
-    ref, order = _tree_reference(parents, expanded, labels, GUIDES[gname])
+    if gname.startswith("child:"):
+        # node 1 and its subtree carry the style; everything else is plain
+        inside = [False] * len(parents)
+        for i, p in enumerate(parents):
+            inside[i] = i == 1 or (p >= 0 and inside[p])
+        glyphs = [GUIDES[gname[6:]] if x else GUIDES["plain"] for x in inside]
+    else:
+        glyphs = GUIDES[gname]
+    ref, order = _tree_reference(parents, expanded, labels, glyphs)
     dep = _tree_depths(parents)
     visible = set(order)
     n = len(parents)
@@ -1429,7 +1496,9 @@ def gen_panel(tier):
             smin = cmin(["panel", child, o])
             if rel:
                 o["width"] = smin + 3
-            kinds = KINDS if ((tier == "thorough" and ci < len(base_children)) or r <= 1) else KINDS[:1]
+            look_only = all(o[a] == PANEL_DEFAULT[a] for a in PANEL_DEFAULT if a not in ("box", "safe_box", "width"))
+            kinds = KINDS if ((tier == "thorough" and ci < len(base_children)) or r <= 1
+                              or (look_only and not rel)) else KINDS[:1]
             for kind in kinds:
                 for W in widths_for(smin):
                     yield {"fam": "panel", "con": kind, "W": W, "desc": ["panel", child, o]}
@@ -1527,42 +1596,49 @@ def gen_pbar(tier):
 
 
 LABEL_SETS = [
-    ["i0", "i1", "i2", "i3", "i4"],
-    ["i0", "i1xx", "i2", "i3xxxx", "i4x"],
-    ["i0\nz", "あ1", "i2", "i3xx", "i4"],
+    ["i0", "i1", "i2", "i3", "i4", "i5", "i6", "i7", "i8"],
+    ["i0", "i1xx", "i2", "i3xxxx", "i4x", "i5", "i6xxx", "i7", "i8x"],
+    ["i0\nz", "あ1", "i2", "i3xx", "i4", "あ5x", "i6\ny", "i7", "i8"],
 ]
 COLUMN_AXES = [
-    ("align", [None, "left", "center", "right"]),
     ("padding", [[0, 1], 0, [0, 2], [1, 3, 1, 1]]),
     ("width", [None, "max", "max+2"]),
 ]
+COLUMN_ALIGNS = [None, "left", "center", "right"]
 
 
 def gen_columns(tier):
+    """column_first x right_to_left x equal x expand x align (complete product) x item counts 0..2*columns+1 x
+    widths that give 1..4 columns, for every (padding, width) vector (quick: thinned for the non-default vectors)"""
+    quick = tier == "quick"
     for li, ls in enumerate(LABEL_SETS):
-        for k in range(1, 6):
-            labels = ls[:k]
-            mx = max(max(sw(p) for p in s.split("\n")) for s in labels)
+        cells = [max(sw(p) for p in s.split("\n")) for s in ls]
+        mx, mn = max(cells), min(cells)
+        for r, o2 in deviations(COLUMN_AXES, 2):
+            wopt = {None: None, "max": mx, "max+2": mx + 2}[o2["width"]]
+            _, pr_, _, pl_ = unpack(o2["padding"])
+            gap = max(pl_, pr_)
+            smin = (max(mx, wopt) + gap) if wopt else mx
             for equal, expand, cf, r2l in itertools.product((False, True), repeat=4):
-                for r, o2 in deviations(COLUMN_AXES, 2 if tier == "quick" else 3):
-                    o = _cdev(equal=equal, expand=expand, column_first=cf, right_to_left=r2l, align=o2["align"],
-                              padding=o2["padding"],
-                              width={None: None, "max": mx, "max+2": mx + 2}[o2["width"]])
-                    d = ["columns", labels, o]
-                    smin = cmin(d)
-                    # glyph substitution does not touch Columns: other consoles only for the plainest vectors in quick
-                    kinds = KINDS if (tier == "thorough" or (r == 0 and not equal and not expand)) else KINDS[:1]
-                    ws = sorted(set(list(range(smin, smin + 11)) + [16, 20, 24, 30, 40, 80]))
-                    if tier == "quick" and r == 2:
-                        # two-deviation vectors: thinned to two label sets x {2, 3, 5} items, equal == expand,
-                        # fewer large widths
-                        if li == 2 or k not in (2, 3, 5) or equal != expand:
+                for align in COLUMN_ALIGNS:
+                    if quick:
+                        if r == 0 and li == 2 and align not in (None, "right"):
                             continue
-                        ws = [w for w in ws if w <= 24]
-                    for kind in kinds:
-                        for W in ws:
-                            if W >= smin:
-                                yield {"fam": "columns", "con": kind, "W": W, "desc": d}
+                        if r == 1 and (li != 1 or align == "left"):
+                            continue
+                        if r == 2 and (li != 0 or align is not None):
+                            continue
+                    o = _cdev(equal=equal, expand=expand, column_first=cf, right_to_left=r2l, align=align,
+                              padding=o2["padding"], width=wopt)
+                    # glyph substitution does not touch Columns: other consoles only for the plainest vectors in quick
+                    kinds = KINDS if (not quick or (r == 0 and li == 0 and align is None)) else KINDS[:1]
+                    for W in list(range(smin, smin + 13)) + [40]:
+                        # upper bound on the number of columns that fit (capped at 4): counts 0..2*columns+1
+                        cap = (W // (wopt + gap)) if wopt else ((W + gap) // (mn + gap))
+                        cap = max(1, min(cap, 4))
+                        for n in range(0, min(2 * cap + 1, len(ls)) + 1):
+                            for kind in kinds:
+                                yield {"fam": "columns", "con": kind, "W": W, "desc": ["columns", ls[:n], o]}
 
 
 def tree_shapes(n):
@@ -1589,8 +1665,10 @@ def gen_tree(tier):
                 for lk in ("one", "two", "mixed"):
                     labels = ["n%d" % i if (lk == "one" or (lk == "mixed" and i % 2)) else "n%d\nm%d" % (i, i)
                               for i in range(n)]
-                    for guide in (None, "bold", "underline2"):
+                    for guide in (None, "bold", "underline2", "child:bold"):
                         if guide == "underline2" and tier == "quick" and n > 3:
+                            continue
+                        if guide == "child:bold" and 1 not in internal:
                             continue
                         d = ["tree", parents, expanded, labels, guide]
                         smin = cmin(d)
@@ -1646,10 +1724,13 @@ def describe(tier, seed, res):
                 "safe_box): %s. Padding 5 pads x expand x style; Align 3 x pad x width 3 x style; Constrain 4 widths; Styled 2 "
                 "styles: full products (quick: ascii/legacy consoles only for unstyled Padding and Align without width/style). Rule: %d titles x %d character strings x 3 aligns x str/Text x W 1..24,40,41,80. "
                 "Bar / ProgressBar: size/total {10,0} x begin x end / completed x width {None,1,5,W+3} x pulse x colour system "
-                "{truecolor, None} x no_color x W 1..13,40,80. Columns: 3 label sets x 1..5 items x equal x expand x column_first "
-                "x right_to_left (full) x (align 4, padding 4, width 3) with %s. Tree: every ordered tree shape with <=5 nodes "
+                "{truecolor, None} x no_color x W 1..13,40,80. Columns: complete product column_first x right_to_left x equal x expand x "
+                "align {None,left,center,right} x item counts 0..2*columns+1 x W = min..min+12, 40 (1..4 columns) x every "
+                "(padding 4, width 3) vector over 3 label sets of 9 items (%s); every item is placed in its grid cell by an "
+                "independent row-first / column-first fill (mirrored for right_to_left), and with `width` the first item must "
+                "sit in the outermost column. Tree: every ordered tree shape with <=5 nodes "
                 "(23 shapes) x expanded flags of the internal nodes x 3 label layouts (one-line, two-line, mixed) x guide style "
-                "{default, bold, underline2}. HISTORY part: %d mutable subjects (Columns add_renderable / renderables.append, "
+                "{default, bold, underline2 on the root, bold on the first child only}. HISTORY part: %d mutable subjects (Columns add_renderable / renderables.append, "
                 "Tree.add on root and on the first child, RenderGroup.renderables.append, Panel/Padding/Align/Constrain/Styled "
                 "with .renderable reassigned, ProgressBar update(completed[, total smaller|larger]) and assignment to "
                 "completed/total/width) x every history of length <=%d over {render at W1, render at W2, each mutator} that "
@@ -1663,11 +1744,12 @@ def describe(tier, seed, res):
                 "rendered alone (or, for rules/bars/columns/trees, when the clause it exercises was applicable; for "
                 "histories, when a mutation follows a render and precedes the last render)."
                 % ("" if q else " + every frame kind with each single option deviation around 3 leaves + 4 deeper nestings",
-                   "all vectors with <=2 deviations (consoles other than utf-8 only for <=1 deviation)" if q
+                   "all vectors with <=2 deviations (consoles other than utf-8 only for <=1 deviation and for box x safe_box)" if q
                    else "full product of title x expand x width x padding with <=1 deviation of box/style/border_style/safe_box (deeper nestings: <=2 deviations)",
                    4 if q else 7, 4 if q else 8,
-                   "<=2 deviations (two-deviation vectors thinned: 2 label sets x {2,3,5} items, equal==expand, W<=24; "
-                   "consoles other than utf-8 only for the default vector)" if q else "the full product",
+                   "quick: default vector on all label sets (third set: align None/right), one-deviation vectors on the "
+                   "varied-width set without align=left, two-deviation vectors on the uniform set with align None; consoles "
+                   "other than utf-8 only for the default vector" if q else "everything on three consoles",
                    len(HIST_SUBJECTS), 3 if q else 4),
         "assumptions": [
             "the child rendered alone by the real code at the inner width is the reference for 'the child's own lines' "
